@@ -75,7 +75,7 @@ func genConcScenario(r *verifrt.Rand, i int) *concScenario {
 	sort.Strings(s.weeks)
 	s.N = 2 + r.Intn(3)
 	s.Rounds = 1 + r.Intn(3)
-	statuses := []int{200, 200, 200, 500, 503, 400, 404, 0}
+	statuses := []int{200, 200, 200, 500, 503, 400, 404, 0, 501, 502, 504, 505, 507, 511, 521, 599, 401, 403, 413, 429, 499}
 	for j, n := 0, r.Intn(4); j < n; j++ {
 		s.Script = append(s.Script, statuses[r.Intn(len(statuses))])
 	}
@@ -138,7 +138,7 @@ func TestVerifUploadConc(t *testing.T) {
 	c07 := verifrt.NewResult("C07.conc")
 	c08 := verifrt.NewResult("C08.sched")
 	c07.Rule = "2-4 uploaders (virtual threads) run the real uploader.Run over one directory with 1-2 finished weeks under the token-passing scheduler (scheduling point at every fs/HTTP call and lock), 1-3 rounds, strategies park-at-k (all k) / PCT / sticky / random, with and without kills. Oracle: from the fs-event log no report file is created or replaced twice; every local.<week>.json equals the reference aggregate and never changes once it exists; counter files are removed only after a report for their week exists. distinct = (scenario, trace) hashes; non-trivial = trace switches uploaders at least twice"
-	c08.Rule = "same runs against a scripted local upload server answering each request 200/400/404/500/503/connection dropped, kills parking an uploader for ever after any fs/HTTP call (deferred cleanup never runs). Oracle over the server log and directory snapshots: per week at most one distinct acknowledged body, and it is the complete reference report; no request for a week arrives while upload/<week>.json exists; a week whose requests in a round were only 5xx/unanswered keeps local/<week>.json; a 4xx answer removes it without creating upload/<week>.json; without kills and with a server that ends up answering 200, every uploadable week is acknowledged exactly once within the rounds (+1 extra round allowed after a 5xx). distinct = histories"
+	c08.Rule = "same runs against a scripted local upload server answering each request 200, a 4xx (400/401/403/404/413/429/499), a 5xx (500-505/507/511/521/599) or dropping the connection, kills parking an uploader for ever after any fs/HTTP call (deferred cleanup never runs). Oracle over the server log and directory snapshots: per week at most one distinct acknowledged body, and it is the complete reference report; no request for a week arrives while upload/<week>.json exists; a week whose requests in a round were only 5xx/unanswered keeps local/<week>.json; a 4xx answer removes it without creating upload/<week>.json; without kills and with a server that ends up answering 200, every uploadable week is acknowledged exactly once within the rounds (+1 extra round allowed after a 5xx). distinct = histories"
 	nb := 32
 	if verifrt.Thorough() {
 		nb = 128
